@@ -97,19 +97,35 @@ __CPROVER_ensures(gh_sent_features == __CPROVER_old(gh_sent_features) + 1)
 ;
 
 /* ---- SASL server objects (src/base/QXmppSasl.cpp) ------------------------------------------------------------------------ */
-/* create(): nullptr for an unknown mechanism, otherwise a new object of that mechanism with no credentials yet */
+/* Mechanisms and the password checker (property statement: "accepts a client as a user only after a SASL exchange that the configured
+   password checker approves for exactly that user and password"):
+     PLAIN      never says Succeeded itself; it says InputNeeded and the checker's reply decides (onPasswordReply)        [verified: plainRespond]
+     DIGEST-MD5 says Succeeded only after a step that compared the client's response with a digest of the checker's secret
+                (passwordDigest, handed over by onDigestReply from the getDigest reply)                                  [assumed, arithmetic not verified]
+     ANONYMOUS  says Succeeded at once, names no user, never involves the checker                                         [verified: anonymousRespond]
+   so a Succeeded authenticates a user only when it comes from a mechanism that is backed by the checker's secret. */
+#define MECH_KNOWN(m) ((m) == S("PLAIN") || (m) == S("DIGEST-MD5") || (m) == S("ANONYMOUS"))
+#define CHECKER_BACKED_SUCCESS(m) ((m) == S("DIGEST-MD5"))
+/* representation invariant of d->saslServer: objects come from create() (three mechanisms) and every code path that creates one calls
+   respond() on it right away, so an ANONYMOUS object has spent its one step (it can never say Succeeded again) */
+#define SASL_OBJECT_INV(s) ((s) == NULL || (MECH_KNOWN((s)->mechanism) && ((s)->mechanism != S("ANONYMOUS") || (s)->m_step >= 1)))
+/* create(): nullptr for an unknown mechanism, otherwise a new object of one of the three mechanisms, at step 0, with no credentials yet */
 QXmppSaslServer *QXmppSaslServer_create(qstr mechanism, QXmppIncomingClient *parent)
 __CPROVER_assigns()
-__CPROVER_ensures(__CPROVER_return_value == NULL || (__CPROVER_is_fresh(__CPROVER_return_value, sizeof(QXmppSaslServer)) &&
-                  __CPROVER_return_value->mechanism == mechanism && mechanism != 0 && __CPROVER_return_value->username == 0 && __CPROVER_return_value->password == 0))
+__CPROVER_ensures(__CPROVER_return_value == NULL || (__CPROVER_is_fresh(__CPROVER_return_value, sizeof(QXmppSaslServer)) && MECH_KNOWN(mechanism) &&
+                  __CPROVER_return_value->mechanism == mechanism && __CPROVER_return_value->m_step == 0 && __CPROVER_return_value->username == 0 && __CPROVER_return_value->password == 0))
 ;
-/* respond() (virtual): any of the four verdicts; may set the object's username / password from the client's payload and advance
-   its step counter; writes the challenge.  Nothing is assumed about WHEN it says Succeeded. */
+/* respond() (virtual), as seen by the connection handlers: the contract of the override that belongs to the object's mechanism.  PLAIN and
+   ANONYMOUS are the postconditions verified on the real overrides (plainRespond.spec, anonymousRespond.spec); DIGEST-MD5 is assumed. */
 int QXmppSaslServer_respond(QXmppSaslServer *self, qbytes request, qbytes *response)
 __CPROVER_requires(self != NULL)
 __CPROVER_assigns(*response, self->username, self->password, self->m_step, gh_respond_calls, gh_respond_last, gh_respond_self)
 __CPROVER_ensures((__CPROVER_return_value == RESP_Challenge || __CPROVER_return_value == RESP_Succeeded || __CPROVER_return_value == RESP_Failed || __CPROVER_return_value == RESP_InputNeeded) &&
                   gh_respond_last == __CPROVER_return_value && gh_respond_calls == __CPROVER_old(gh_respond_calls) + 1 && gh_respond_self == self)
+__CPROVER_ensures(self->mechanism == S("PLAIN") ==> __CPROVER_return_value != RESP_Succeeded)
+__CPROVER_ensures(self->mechanism == S("ANONYMOUS") ==> ((__CPROVER_return_value == RESP_Succeeded ? __CPROVER_old(self->m_step) == 0 : __CPROVER_return_value == RESP_Failed) &&
+                  self->m_step >= 1 && self->username == __CPROVER_old(self->username) && self->password == __CPROVER_old(self->password)))
+__CPROVER_ensures((self->mechanism == S("DIGEST-MD5") && __CPROVER_return_value == RESP_Succeeded) ==> __CPROVER_old(self->m_step) >= 1)
 ;
 /* mechanism() (virtual): the constant name of the object's mechanism */
 qstr QXmppSaslServer_mechanism(const QXmppSaslServer *self)
